@@ -660,11 +660,14 @@ func (p *printer) wildSep(prev, t tok, noNL bool, nl func() string) string {
 		// inline long comment
 		txt := commentTexts[c.Intn(len(commentTexts), "ctext")]
 		lvl := 0
-		for strings.Contains(txt, "]"+strings.Repeat("=", lvl)+"]") {
+		for strings.Contains(txt, "]"+strings.Repeat("=", lvl)+"]") || strings.HasSuffix(txt, "]"+strings.Repeat("=", lvl)) {
 			lvl++
 		}
 		if c.Intn(3, "clevel") == 0 {
 			lvl += 2
+			for strings.Contains(txt, "]"+strings.Repeat("=", lvl)+"]") || strings.HasSuffix(txt, "]"+strings.Repeat("=", lvl)) {
+				lvl++
+			}
 		}
 		eq := strings.Repeat("=", lvl)
 		if noNL && strings.ContainsAny(txt, "\n\r") {
